@@ -381,7 +381,8 @@ func campaign(r *rep.Report, e rep.Env, via string) {
 			if via == "http" && g.Intn(25) == 0 {
 				c.Op = "rawBody"
 				c.Id = []string{"/api/loc/facts/add", "/api/json", "/api/yaml", "/api/loc/events/ingest", "/api/sys/util/batch", "/nowhere"}[g.Intn(6)]
-				c.Raw = []string{"", "[]", "[1,2]", "null", "\"str\"", "{", "location=H&fact=%7B%7D", "a: [b", "{\"uri\":5}", "{\"requests\":[5]}", "{\"requests\":[{\"uri\":5}]}", "{\"requests\":[{\"uri\":\"/api/loc/facts/query\",\"location\":\"H\",\"query\":{\"bogus\":\"q\\\"uote\"}}]}"}[g.Intn(12)]
+				c.Raw = []string{"", "[]", "[1,2]", "null", "\"str\"", "{", "location=H&fact=%7B%7D", "a: [b", "{\"uri\":5}", "{\"requests\":[5]}", "{\"requests\":[{\"uri\":5}]}", "{\"requests\":[{\"uri\":\"/api/loc/facts/query\",\"location\":\"H\",\"query\":{\"bogus\":\"q\\\"uote\"}}]}",
+					"location=H&fact=", "location=H&pattern=", "location=H&event=&fact=", "location=H&rule=%20"}[g.Intn(16)]
 			}
 			if via != "loc" && c.Op != "rawBody" && g.Intn(30) == 0 {
 				c.Raw = []string{"", "[]", "5", "null", "\"s\"", "{\"a\":", "{\"rule\":5}"}[g.Intn(7)]
@@ -574,6 +575,77 @@ func storedVarStrings(r *rep.Report, e rep.Env, via string) {
 	}
 }
 
+// hostileScripts: a rule's action (or condition) is part of the rule document.  Scripts that
+// call the functions rulio offers them with absent, ill-typed or malformed arguments must end
+// as an error or a value on their node; the event returns and the location keeps working.
+func hostileScripts(r *rep.Report, e rep.Env, via string) {
+	codes := []string{
+		"Env.http('GET','%zz')", "Env.http('GET','http://[::1')", "Env.http('GET',':')", "Env.http()", "Env.http(5, {})", "Env.httpx({})", "Env.httpx({uri: 7})",
+		"Env.AddFact()", "Env.AddFact(5)", "Env.AddFact('x', 'not a map')", "Env.AddFact(null, null)", "Env.RemFact()", "Env.RemFact({})",
+		"Env.Search()", "Env.Search(5)", "Env.Search({a:'?x'}, 'yes')", "Env.Query()", "Env.Query({bogus:1})", "Env.Query({and:5})",
+		"Env.match()", "Env.match(1,2)", "Env.match({a:'?x'}, null)", "Env.ProcessEvent()", "Env.ProcessEvent(null)", "Env.ProcessEvent('str')",
+		"Env.AddRule()", "Env.AddRule('r', 5)", "Env.AddRule('r', {when: 5})", "Env.RemRule(null)", "Env.sleep('long')", "Env.sleep(-1)",
+		"Env.out()", "Env.bindings.x.y.z", "Env.secsFromNow()", "Env.secsFromNow('soon')", "Env.encode()", "Env.gensym(5)", "Env.exit()", "Env.log()",
+	}
+	for half := 0; half < 2; half++ {
+		kind := drv.Kinds[half]
+		var t target
+		switch via {
+		case "loc":
+			t = newLocTarget(kind)
+		case "sys":
+			t = newSysTarget(kind == "linear")
+		default:
+			t = newHTTPTarget(kind == "linear")
+		}
+		for ci, code := range codes {
+			for _, pos := range []string{"action", "condition"} {
+				rule := map[string]interface{}{"when": map[string]interface{}{"pattern": map[string]interface{}{"hs": fmt.Sprint(ci)}}, "action": map[string]interface{}{"code": "1"}}
+				if pos == "action" {
+					rule["action"] = map[string]interface{}{"code": code}
+				} else {
+					rule["condition"] = map[string]interface{}{"code": code}
+				}
+				calls := []call{
+					{Via: via, State: kind, Op: "addRule", Id: "hs", Doc: rule},
+					{Via: via, State: kind, Op: "event", Doc: map[string]interface{}{"hs": fmt.Sprint(ci)}},
+				}
+				for _, c := range calls {
+					r.Journal(c)
+					var derr error
+					returned, pan := drv.Guard(callLimit, func() { _, derr = t.do(c) })
+					r.Case(true, "hostile-script"+via+kind+pos+code+c.Op)
+					r.Count("hostile_script_requests", 1)
+					wit := rep.J{"call": c, "script": code, "position": pos, "error": drv.ErrStr(derr)}
+					if !returned {
+						r.Violate(hangKey(c), "the call did not return within 25 s (hang)", wit)
+						return
+					}
+					if pan != "" {
+						wit["panic"] = pan
+						r.Violate(panicKey(pan, c), "a panic escaped a public operation: "+firstLine(pan), wit)
+					}
+					if na, ok := derr.(*noAnswer); ok {
+						wit["error"] = na.Error()
+						r.Violate(noAnswerKey(c), "the HTTP service gave neither a result nor an error response (connection dropped)", wit)
+					}
+				}
+				var cerr error
+				clean := false
+				if ret, pan := drv.Guard(callLimit, func() { clean = t.cleanup() }); !ret || pan != "" {
+					r.Violate("", "removing a rule with a hostile script hangs or panics: "+firstLine(pan), rep.J{"script": code})
+					return
+				}
+				if clean {
+					if ret, pan := drv.Guard(callLimit, func() { cerr = t.canary(ci, true) }); !ret || pan != "" || cerr != nil {
+						r.Violate("", fmt.Sprintf("after a rule with a hostile script ran and was removed ordinary requests fail (returned=%v panic=%q error=%v)", ret, firstLine(pan), cerr), rep.J{"script": code, "position": pos})
+					}
+				}
+			}
+		}
+	}
+}
+
 func hquery(g *gen.Gen, depth int) interface{} {
 	if depth <= 0 || g.Intn(3) == 0 {
 		switch g.Intn(4) {
@@ -626,6 +698,8 @@ func main() {
 		if e.Batch == 0 {
 			r.WritePartial() // a stack overflow in the next part kills the process; keep what there is
 			storedVarStrings(r, e, e.Stage)
+			r.WritePartial()
+			hostileScripts(r, e, e.Stage)
 		}
 		campaign(r, e, e.Stage)
 	}
